@@ -247,11 +247,19 @@ impl Ctx {
 }
 
 thread_local! {
-    pub static CTX: RefCell<Ctx> = RefCell::new(Ctx::new());
+    // ManuallyDrop: no thread-local destructor is registered, so the context is still accessible from the atexit
+    // handler that writes the process-mode snapshot
+    pub static CTX: RefCell<std::mem::ManuallyDrop<Ctx>> = RefCell::new(std::mem::ManuallyDrop::new(Ctx::new()));
 }
 
+static PROC_INIT: std::sync::Once = std::sync::Once::new();
+
 pub fn with<R>(f: impl FnOnce(&mut Ctx) -> R) -> R {
-    CTX.with(|c| f(&mut c.borrow_mut()))
+    CTX.with(|c| {
+        // process mode (lifted binary as a child): load the driving witness and arrange for the snapshot at exit
+        PROC_INIT.call_once(|| crate::procmode::child_init(&mut **c.borrow_mut()));
+        f(&mut **c.borrow_mut())
+    })
 }
 
 /// Start a new path driven by `witness` (input name -> f32 bits).
